@@ -47,7 +47,7 @@ def plan(tier, seed):
     for i in range(0, len(pair), 6):
         out.append({'group': 'stop', 'lo': i, 'hi': min(i + 6, len(pair))})
         out.append({'group': 'signal', 'lo': i, 'hi': min(i + 6, len(pair))})
-    for i in range(0, 400 if tier == 'quick' else 6000, 20):
+    for i in range(0, 400 if tier == 'quick' else 100000, 20):
         out.append({'group': 'cross', 'lo': i, 'hi': i + 20, 'seed': seed})
     # a start that completes an incomplete, active watcher (respawn = false, one worker gone): the gate is the same
     for hook in ('before_spawn', 'after_spawn'):
@@ -79,6 +79,8 @@ def run_case(spec):
             for stubborn in (False, True):
                 for np_ in (1, 2):
                     run_one(mk(hooks, stubborn, np_, autostart=False), ['start'], res)
+            # nothing to spawn: the spawn hooks have no say, before_start / after_start gate as always
+            run_one(mk(hooks, False, 0, autostart=False), ['start'], res)
     elif g == 'stop':
         pair = list(itertools.product(OUT, [False, True], OUT, [False, True]))
         for o1, i1, o2, i2 in pair[spec['lo']:spec['hi']]:
@@ -103,7 +105,7 @@ def run_case(spec):
             hooks = {n: [rnd.choice(OUT), rnd.random() < .5] for n in names}
             reqs = [rnd.choice(['start', 'stop', 'restart', 'signal:15', 'signal:9', 'kill', 'reload'])
                     for _ in range(rnd.randint(1, 3))]
-            hh = mk(hooks, rnd.random() < .5, rnd.choice([1, 2]), autostart=rnd.random() < .5)
+            hh = mk(hooks, rnd.random() < .5, rnd.choice([1, 2, 1, 2, 0]), autostart=rnd.random() < .5)
             if rnd.random() < .3:
                 hh['clock'] = [rnd.randint(1, 20), rnd.choice([-3600.0, 3600.0, 86400.0, -5.0])]
             run_one(hh, reqs, res)
@@ -236,7 +238,8 @@ def _one(w, h, reqs, res):
     yield w.settle(30)
     tag = 'w_a'
     E = {n: eff(o, i) for n, (o, i) in hooks.items()}
-    started_ok = all(E.get(n, True) for n in START_HOOKS)
+    gating = START_HOOKS if np_ > 0 else [n for n in START_HOOKS if n in ('before_start', 'after_start')]
+    started_ok = all(E.get(n, True) for n in gating)
     for req in reqs:
         if w.stalled is not None:
             break
@@ -265,7 +268,7 @@ def _one(w, h, reqs, res):
                                       'all gating hooks effective-true %s but status=%s live=%d/%d'
                                       % (hooks, st, len(live), np_))
                 else:
-                    culprit = [n for n in START_HOOKS if not E.get(n, True)][0]
+                    culprit = [n for n in gating if not E.get(n, True)][0]
                     if st != 'stopped':
                         res.violation('C14/start-not-aborted:' + culprit, 'hook %s is effective-false (%s) but the '
                                       'watcher reports %s' % (culprit, hooks[culprit], st))
